@@ -34,6 +34,16 @@ THEOREMS = [
     'CC.C18_exponent_decade_small', 'CC.C18_exponent_decade_domain', 'CC.C18_accuracy_domain',
     'CC.C18_mantissa_range_domain', 'CC.C18_saturate_domain', 'CC.C18_tables_ends', 'CC.C18_sine_shift', 'CC.C18_saturation_independent_of_precision', 'CC.C18_render', 'CC.C18_real_domain', 'CC.C18_complex_shown_parts',
 ]
+# round 5 (CC/Proofs/FmtPolar.lean, CC/Properties/C18Polar.lean): polar form, time function, power texts, zero parts
+LEAN_MODULE_EXTRA = ['CC.Properties.C18Polar']
+THEOREMS += [
+    'CC.C18_polar_constants', 'CC.C18_polar_text', 'CC.C18_polar_magnitude_real_path', 'CC.C18_polar_omission',
+    'CC.C18_polar_angle_text', 'CC.C18_polar_small_angle_text', 'CC.C18_polar_reads_back',
+    'CC.C18_time_configs', 'CC.C18_time_w_zero', 'CC.C18_time_text', 'CC.C18_time_parts_read_back', 'CC.C18_time_phase_rule',
+    'CC.C18_time_function_denotes', 'CC.C18_sine_shift_former_sign',
+    'CC.C18_cartesian_zero_im', 'CC.C18_cartesian_zero_re', 'CC.C18_zero_part_read_back', 'CC.C18_zero_text',
+    'CC.C18_active_power_text', 'CC.C18_active_reactive_text',
+]
 OPEN_STATEMENTS = [
     'CC.C18_exponent_decade_statement and CC.C18_real_partial_statement for |v| >= 1e16 only (outside the property domain '
     '1e-15..1e15; proved below 1e16 as C18_exponent_decade_domain / C18_real_domain).  Consequence: under |v| < 1e16 the first '
@@ -43,15 +53,26 @@ OPEN_STATEMENTS = [
     "repository's own tests encode the behaviour)",
     'Cartesian complex text: WHICH parts appear.  C18_complex_shown_parts states each branch with its is_zero condition and '
     'that the part texts read back accurately; that a part is left out only when it should be is FALSE at full strength (open '
-    'finding 2, C18_complex_suppression_counterexample: |im| = 20|re| dropped).  Values with a zero part (purely real / purely '
-    'imaginary) are outside the hypotheses (InDomain)',
-    'a verified *reader* for the composite texts (parseCartesian / parsePolar / sinusoid): that parseCartesian splits the text at '
-    'the places C18_complex_shown_parts names is covered by the correspondence and the oracle only',
-    'polar text: C18_complex_polar proves the structure (magnitude text, angle in fixed notation, cut-offs); the accuracy of the '
-    'printed angle at the level of the characters (fixedFmt / parseFixed) is unproved — C18_fixed_accuracy is only a fact about '
-    'the rounding rhe; oracle only',
+    'finding 2, C18_complex_suppression_counterexample: |im| = 20|re| dropped).  Values with an EXACTLY zero part are now proved '
+    '(C18_cartesian_zero_im / _zero_re / C18_zero_part_read_back: exactly that part is omitted, the other is the real path; the '
+    'number 0 itself: C18_zero_text); a non-zero part that is_zero suppresses remains finding 2',
+    'a verified reader for the composite texts: proved for the polar text (C18_polar_reads_back: parsePolar on the model text, '
+    'for CfgOK configurations whose unit / prefixes do not contain the separator) — NOT for parseCartesian (that it splits the '
+    'text at the places C18_complex_shown_parts names) and not for the sinusoid / P-Q texts, for which the Spec has no reader: '
+    'their structure is proved (C18_time_text, C18_active_reactive_text) and each number in them reads back by the real path '
+    '(C18_time_parts_read_back), the split of the whole string is covered by the correspondence and the oracle only',
+    'polar / time function: abs(value), np.angle, cmath.phase (+ quarter turn), degrees, w/2/pi are PARAMETERS of the model.  '
+    'The theorems say the text denotes the numbers handed to the formatter (magnitude: RealOK; angle: within 0.5e-4 rad / '
+    '0.5e-2 deg, C18_polar_angle_text; phase: real path with p digits); that these numbers are |z| and arg z of the value is '
+    'oracle only.  C18_time_function_denotes proves over the reals that Re(X e^{jwt}) = |X|cos(wt+arg X) = |X|sin(wt+arg X+shift*pi/2) '
+    'for the generated shift — for exact modulus/argument, not for the libm values',
+    'the polar angle carries a FIXED number of decimals (4 / 2), not p significant digits: C18_polar_angle_text is the strongest '
+    'true statement (open finding 3; C18_polar_small_angle_text: 2e-5 rad is shown as 0.0000); '
+    'print_active_reactive_power omits Q below an ABSOLUTE threshold (C18_active_reactive_text states it; open finding 4)',
+    'all round-5 read-back statements inherit the real-path domain: value != 0, |v| < 1e16, outside the rounds-up-to-one region '
+    '(InDomain; open finding 1)',
     'pins (restate generated definitions so that an edit breaks a theorem, no further content): C18_is_inf_iff, C18_is_zero_iff, '
-    'C18_no_prefix, C18_defaults, C18_display_args, C18_display_ranges',
+    'C18_no_prefix, C18_defaults, C18_display_args, C18_display_ranges, C18_polar_constants, C18_time_configs',
 ]
 ASSUMPTIONS = [
     'the model formats the exact rational value of the binary64 input; float arithmetic inside Utils.py '
